@@ -1,5 +1,6 @@
 import PwVerif.Proofs.Conn
 import PwVerif.Proofs.ConnOps
+import PwVerif.Proofs.ConnSeat
 /-!
 # C12 — Connections stay mutual, well-typed and duplicate-free under any editing history
 
@@ -81,6 +82,82 @@ theorem C12_step_current (g : G) (op : ConnOps.Op) (h : Inv g) : Inv (ConnOps.st
 theorem C12_history_current (kind owner valid) (ops : List ConnOps.Op) :
     Inv (ConnOps.run (empty kind owner valid) ops) :=
   ConnOps.run_inv _ ops (C12_init kind owner valid)
+
+/-! ## `replace_child`: hard copy, `_seat_replacement` (lists assigned one by one), removal -/
+
+/-- `_seat_replacement` on ANY graph that passes the model's check (`seatable`: disjoint nodes, injective
+stand-ins of equal kind, every connected channel of the replaced node has one, the replacement is connected
+only through stand-ins and only to partners of the replaced node) keeps mutuality, conjugate kinds and
+duplicate-freedom — also when the replaced node is connected to itself and with copy_io's prepended
+copies in place (a neighbour cannot hold the replaced channel twice: `Inv.nodup`) -/
+theorem C12_seat_keeps_invariant (g : G) (m : List (Nat × Nat)) (O N : List Nat) (h : Inv g)
+    (hs : seatable g m O N = true) : Inv (seat g m O N) :=
+  seat_inv g m O N h (seatable_spec g m O N hs)
+
+/-- ... and what it leaves, channel by channel: the list of the channel it stands for (`src`), without the
+replacement's copies, stand-ins substituted, order kept; the replaced channels and unused channels of the
+replacement hold nothing -/
+theorem C12_seat_exact (g : G) (m : List (Nat × Nat)) (O N : List Nat) (h : Inv g) (hs : seatable g m O N = true)
+    (y : Nat) : (seat g m O N).conns y = match src m N y with
+      | some a => ((g.conns a).filter fun z => !N.contains z).map (subst m)
+      | none => [] :=
+  seat_conns g m O N h (seatable_spec g m O N hs) y
+
+/-- the connection side of `replace_child` keeps the invariant FOR EVERY argument (the step of
+`C12_history_current` for histories that contain replacements) -/
+theorem C12_replace_keeps_invariant (g : G) (r : RepArgs) (pre : Bool) (h : Inv g) :
+    Inv (replaceConn g r pre).1 := replaceConn_inv g r pre h
+
+/-- a refused replacement (a guard, or the connection copy failing in any panel) leaves every list as it was -/
+theorem C12_replace_refused_noop (g : G) (r : RepArgs) (pre : Bool) (h : Inv g)
+    (hr : (replaceConn g r pre).2 = .refused ∨ (replaceConn g r pre).2 = .connErr) :
+    (replaceConn g r pre).1 = g := replaceConn_refused g r pre h hr
+
+/-! Non-vacuity: node A (input 0, output 1) feeds itself and is wired to B (output 2 → 0 first, then 1 → 0;
+1 → input 3 of B); it is replaced by the unconnected C (input 4, output 5). -/
+def repKind : Nat → Kind | 0 => .dataIn | 1 => .dataOut | 2 => .dataOut | 3 => .dataIn | 4 => .dataIn | _ => .dataOut
+def repG : G := ConnOps.run (empty repKind (fun c => c / 2) (fun _ _ => true))
+  [.connect 0 [2], .connect 0 [1], .connect 1 [3]]
+def repArgs : RepArgs := { oldChans := [0, 1], newChans := [4, 5], pairs := [(some 4, 0), (some 5, 1)] }
+example : repG.conns 0 = [1, 2] ∧ repG.conns 1 = [3, 0] := by decide
+example : (replaceConn repG repArgs true).2 = .ok := by decide
+/-- the replacement sits exactly where the replaced node sat, the self-connection is now its own -/
+example : (replaceConn repG repArgs true).1.conns 4 = [5, 2] ∧ (replaceConn repG repArgs true).1.conns 5 = [3, 4] ∧
+    (replaceConn repG repArgs true).1.conns 2 = [4] ∧ (replaceConn repG repArgs true).1.conns 3 = [5] ∧
+    (replaceConn repG repArgs true).1.conns 0 = [] ∧ (replaceConn repG repArgs true).1.conns 1 = [] := by decide
+/-- right after the hard copy the prepended copies are there -/
+example : (copyIoN repG true repArgs.pairs).1.conns 2 = [4, 0] ∧ (copyIoN repG true repArgs.pairs).1.conns 0 = [5, 1, 2] := by
+  decide
+example : (replaceConn repG { repArgs with pairs := [(some 4, 0), (none, 1)] } true).2 = .connErr := by decide
+example : Inv (replaceConn repG repArgs true).1 := C12_replace_keeps_invariant _ _ _ (C12_history_current _ _ _ _)
+
+/-! ## the other sites that assign connection lists: flow derivation of run / pull, firing order after unpickling -/
+
+/-- `_set_new_run_connections_with_fallback_recovery` (every automated `run`, every `pull`): cutting the run
+signals keeps the invariant, and when the flow cannot be derived the assignment of the saved lists gives back
+exactly the graph it started from (the wiring itself, pull's extra cuts and its re-connections are `connect` /
+`disconnect` steps of the same alphabet) -/
+theorem C12_flow_derivation (g : G) (cut : List Nat) (fail : Bool) (h : Inv g) :
+    Inv (dagAttempt g cut fail) ∧ dagAttempt g cut true = g :=
+  ⟨dagAttempt_inv g cut fail h, dagAttempt_fail g cut h⟩
+
+/-- `Composite._restore_firing_order` (unpickling, merge-back from a by-value executor) assigns an output
+signal a permutation of its own list: the invariant survives; anything that is not a permutation is refused
+by the model (`bad-obs`) -/
+theorem C12_firing_order (g : G) (c : Nat) (l : List Nat) (h : Inv g) :
+    Inv (reorder g c l).1 ∧ ((reorder g c l).2 = true → ∀ b, b ∈ (reorder g c l).1.conns c ↔ b ∈ g.conns c) := by
+  refine ⟨reorder_inv g c l h, ?_⟩
+  intro hok b
+  unfold reorder at hok ⊢
+  split
+  · rename_i hp
+    simp [setConns, (List.isPerm_iff.mp hp).mem_iff]
+  · rename_i hp
+    simp [hp] at hok
+
+example : (dagAttempt exG [1] false).conns 0 = [] ∧ (dagAttempt exG [1] true).conns 1 = exG.conns 1 := by decide
+example : (reorder exG 1 [5, 0]).2 = true ∧ (reorder exG 1 [5, 0]).1.conns 1 = [5, 0] ∧ (reorder exG 1 [5, 5]).2 = false := by
+  decide
 
 /-! ## refusals per side, in the tree's order of half-removals -/
 
@@ -194,6 +271,13 @@ example : (disconnectChansR ownG [0, 1]).2 = [(0, 4), (0, 2), (1, 3)] := by deci
 example : (disconnectChans ownG [0, 1]).conns 4 = [5] ∧ (disconnectChans ownG [0, 1]).conns 2 = [] := by decide
 example : anyConnected ownG [0, 1] = true ∧ panelConnections ownG [0, 1] = [4, 2, 3] := by decide
 
+/-- a node that loses its parent WITHOUT its `disconnect()` (what the merge-back from a by-value executor
+does to the local children, KF-C12-1) is still pointed at: with the body channel 1 wired to the outside
+channel 0, dropping the owner of 1 leaves `0` listing `1`, whereas `remove_child` (`disconnectChans`) clears it -/
+theorem C12_ditch_without_disconnect_witness :
+    (1 : Nat) ∈ tornG.conns 0 ∧ (∀ x, (1 : Nat) ∉ (disconnectChans tornG [1]).conns x) :=
+  ⟨by decide, fun x => (C12_owner_disconnect_clean tornG [1] (C12_history _ _ _ _) 1 (by simp)).1 x⟩
+
 /-! ## refused copies -/
 
 /-- `Channel.copy_connections` as the tree has it now: refused ⇒ every list exactly as before,
@@ -257,6 +341,13 @@ end PwVerif.C12
 #print axioms PwVerif.C12.C12_connect_idempotent
 #print axioms PwVerif.C12.C12_step_current
 #print axioms PwVerif.C12.C12_history_current
+#print axioms PwVerif.C12.C12_seat_keeps_invariant
+#print axioms PwVerif.C12.C12_seat_exact
+#print axioms PwVerif.C12.C12_replace_keeps_invariant
+#print axioms PwVerif.C12.C12_replace_refused_noop
+#print axioms PwVerif.C12.C12_flow_derivation
+#print axioms PwVerif.C12.C12_firing_order
+#print axioms PwVerif.C12.C12_ditch_without_disconnect_witness
 #print axioms PwVerif.C12.C12_unguarded_is_atomic
 #print axioms PwVerif.C12.C12_disconnect_half_iff
 #print axioms PwVerif.C12.C12_disconnect_torn_state
